@@ -6,3 +6,7 @@ let () = register_backend "python" (fun cfg pd ->
   let c = { Model.py_type_mappings = cfg_map cfg "type_mappings"; Model.py_no_version_header = cfg_bool cfg "no_version_header" true;
             Model.py_version = cfg_str cfg "version" } in
   Model.py_generate uc c pd)
+let () = register_decls "python" (fun cfg pd ->
+  let c = { Model.py_type_mappings = cfg_map cfg "type_mappings"; Model.py_no_version_header = cfg_bool cfg "no_version_header" true;
+            Model.py_version = cfg_str cfg "version" } in
+  Model.py_file_decls uc c pd)
